@@ -29,7 +29,9 @@ pub fn compute_state_root(store: &tensor_store::TensorStore) -> Result<BlockHash
             .get(&key)
             .map_err(|e| ChainError::StorageError(e.to_string()))?;
 
-        let mut field_keys: Vec<&String> = data.keys().collect();
+        // `_created_at` is stamped from the local clock by the graph engine (the chain's
+        // link nodes live in the same store) and differs between replicas.
+        let mut field_keys: Vec<&String> = data.keys().filter(|k| *k != "_created_at").collect();
         field_keys.sort();
         let field_count = field_keys.len() as u64;
         hasher.update(field_count.to_le_bytes());
